@@ -1,4 +1,5 @@
 import MmtkModel.Lemmas.Sched
+import MmtkModel.Lemmas.SchedLive
 import MmtkModel.Generated.Stages
 /-!
 # C16 — Worker shutdown and fork round-trip every worker exactly once
@@ -23,8 +24,25 @@ transition, all interleavings, all `n ≥ 1`.
   the state is `Spawned`, `parked_workers = 0`, no goal is current.
 * `gc_after_fork` — the state after `respawn` is a reachable state of the same system, so every
   theorem of C14/C15 applies to the GCs that follow.
-"Exactly once under fairness" (each worker *does* exit) is liveness and is not proved; the proved
-part is named `exit_once` (at most once) — see the hang oracle of the check for the other half.
+* **liveness** (`Lemmas/SchedLive.lean`: `FairRun` = weak fairness of every worker's loop actions `take`,
+  `look`, `miss`, `park`, `wake`, `surrender`, `finish`):
+  - `workers_exit_after_goal` — once an exit goal is current and the surrender pool is prepared (`ExitPhase`:
+    every worker is `woken`, `exited` or `surrendered`, which is the state right after the last parker started
+    the goal), under `FairRun` alone (any environment actions, any spurious wake-ups) the run reaches a state in
+    which all `n` workers are `surrendered`; each worker goes `woken → exited → surrendered`.
+  - `workers_exit_under_fairness` — from the *request*: if `Shutdown` / `StopForFork` is requested, no goal is
+    current, every worker thread exists, `prepare_surrender_buffer` has been called and no Gc request is
+    pending or arrives, then under `FairRun` + `FiniteSpawn` + `FiniteEnv` + `NoAssert` (the hypotheses of C14)
+    the exit goal becomes current and later all `n` workers are `surrendered`.  Together with `exit_once` /
+    `surrender_once`: every worker exits exactly once and surrenders exactly once.
+  - `exit_hypotheses_satisfiable` — a concrete fair run satisfying every hypothesis (kernel-evaluated).
+  Not proved (stated precisely): the case in which a Gc goal is current or a Gc request is pending when the
+  exit request arrives.  `Gc` has priority; `gc_completes_under_fairness` (C14) shows that GC completes, and
+  the completing `on_last_parked` either starts the exit goal itself or (concurrent work scheduled) wakes the
+  workers with no goal current, after which `workers_exit_under_fairness` applies to the suffix of the run —
+  the missing link is the lemma "the state after the completing `park` satisfies the start hypotheses again"
+  (`reqGc = false` there is immediate from the assertion in `on_last_parked`; preservation of the exit request
+  through `respond` is not written down).
 -/
 namespace Mmtk.Sched
 
@@ -237,6 +255,383 @@ theorem gc_after_fork {c : Cfg} {s s' : State} {a : Act} (hr : Reachable c s) (h
       | none => rw [ht] at e; cases e
       | some t1 => rw [ht] at e; exact ih t1 e
   exact this run _ h
+
+/-! ## liveness: every worker exits and surrenders -/
+
+/-- the exit phase: an exit goal is current, `prepare_surrender_buffer` has been called, and every worker
+has been notified (`woken`), has left its loop (`exited`) or has surrendered its struct -/
+def ExitPhase (c : Cfg) (s : State) : Prop :=
+  (∃ g, s.current = some g ∧ g.isExit = true) ∧ (∃ k, s.creation = .surrendered k) ∧
+  ∀ w, w < c.n → qLate (s.pc w) = true
+
+theorem step_wake_exit {c : Cfg} {s s' : State} {x : Nat} (hs : step c s (.wake x) = some s')
+    (hg : ∃ g, s.current = some g ∧ g.isExit = true) : s.pc x = .woken ∧ s'.pc x = .exited := by
+  simp only [step] at hs
+  split at hs
+  · rename_i hgd; injection hs with hs; subst hs
+    refine ⟨hgd.2.1, ?_⟩
+    obtain ⟨g, h1, h2⟩ := hg
+    unfold afterUnpark
+    cases g
+    · cases h2
+    · simp [h1, setPc]
+    · simp [h1, setPc]
+  · cases hs
+
+theorem step_surrender_pc {c : Cfg} {s s' : State} {x : Nat} (hs : step c s (.surrender x) = some s') :
+    s.pc x = .exited ∧ s'.pc x = .surrendered ∧ ∃ k, s'.creation = .surrendered k := by
+  simp only [step] at hs
+  split at hs
+  · split at hs
+    · rename_i hg
+      split at hs <;> (injection hs with hs; subst hs; exact ⟨hg.2, by simp [setPc], _, rfl⟩)
+    · cases hs
+  · cases hs
+
+/-- one step inside the exit phase stays inside it, unless all workers have surrendered before or after it -/
+theorem exitPhase_step {c : Cfg} (hn : 0 < c.n) {s s' : State} {a : Act} (hr : Reachable c s) (h : ExitPhase c s)
+    (hs : step c s a = some s') (hG : ¬ ∀ w, w < c.n → s.pc w = .surrendered)
+    (hG' : ¬ ∀ w, w < c.n → s'.pc w = .surrendered) : ExitPhase c s' := by
+  obtain ⟨hgoal, ⟨k, hcr⟩, hlate⟩ := h
+  have hA := reachable_invA hr
+  have hA' := reachable_invA (gc_after_fork hr hs)
+  have hnoresp : a ≠ .respawn := by
+    intro e; subst e
+    simp only [step] at hs
+    rw [hcr] at hs
+    simp only at hs
+    split at hs
+    · rename_i hk
+      exact hG (no_parking_when_all_surrendered hA (by rw [hcr, hk]))
+    · cases hs
+  have hnopark : ∀ w tag, a ≠ .park w tag := by
+    intro w tag e; subst e
+    obtain ⟨hw, hp, _, _⟩ := step_park_cases hs
+    have := hlate w hw; rw [hp] at this; cases this
+  have hlate' : ∀ w, w < c.n → qLate (s'.pc w) = true := by
+    intro w hw
+    rcases step_late_stable late_qLate hs w (hlate w hw) with h | rfl | rfl | rfl
+    · exact h
+    · rw [(step_wake_exit hs hgoal).2]; rfl
+    · rw [(step_surrender_pc hs).2.1]; rfl
+    · exact absurd rfl hnoresp
+  rcases step_other_E c s s' a hs with ⟨w, tag, rfl⟩ | ⟨w, rfl⟩ | ⟨w, rfl⟩ | rfl | ⟨hcur, hcre, _⟩
+  · exact absurd rfl (hnopark w tag)
+  · refine ⟨?_, ?_, hlate'⟩
+    · simp only [step] at hs
+      split at hs
+      · injection hs with hs; subst hs; rw [afterUnpark_current]; exact hgoal
+      · cases hs
+    · simp only [step] at hs
+      split at hs
+      · injection hs with hs; subst hs; rw [afterUnpark_creation]; exact ⟨k, hcr⟩
+      · cases hs
+  · refine ⟨?_, (step_surrender_pc hs).2.2, hlate'⟩
+    simp only [step] at hs
+    rw [hcr] at hs
+    simp only at hs
+    split at hs
+    · split at hs
+      · rename_i hk
+        injection hs with hs
+        exfalso
+        apply hG'
+        apply no_parking_when_all_surrendered hA'
+        rw [← hs]; show Creation.surrendered (k + 1) = _; rw [hk]
+      · injection hs with hs; subst hs; exact hgoal
+    · cases hs
+  · exact absurd rfl hnoresp
+  · refine ⟨by rw [hcur]; exact hgoal, ?_, hlate'⟩
+    rcases hcre with e | e
+    · exact ⟨k, by rw [e]; exact hcr⟩
+    · exact ⟨0, e⟩
+
+/-- **C16 (liveness, exit phase)**: once an exit goal is current (the last parker woke everybody and left its
+loop) and the surrender pool is prepared, under fairness every worker leaves its loop and surrenders its
+struct: the run reaches a state where all `n` workers are `surrendered`.  (Each worker goes
+`woken → exited → surrendered`, each transition once: `exit_once`.) -/
+theorem workers_exit_after_goal {c : Cfg} {tr : Nat → State} {act : Nat → Option Act} (hn : 0 < c.n)
+    (R : FairRun c tr act) (h0 : ExitPhase c (tr 0)) : ∃ j, ∀ w, w < c.n → (tr j).pc w = .surrendered := by
+  apply Classical.byContradiction
+  intro hno
+  have hG : ∀ j, ¬ ∀ w, w < c.n → (tr j).pc w = .surrendered := fun j h => hno ⟨j, h⟩
+  have hI : ∀ j, ExitPhase c (tr j) := by
+    intro j
+    induction j with
+    | zero => exact h0
+    | succ j ih =>
+      cases ha : act j with
+      | none => rw [R.stutter_at ha]; exact ih
+      | some a => exact exitPhase_step hn (R.reach j) ih (R.step_at ha) (hG j) (hG (j+1))
+  have hnoresp : ∀ j, act j ≠ some .respawn := by
+    intro j ha
+    have hs := R.step_at ha
+    obtain ⟨_, ⟨k, hcr⟩, _⟩ := hI j
+    simp only [step] at hs
+    rw [hcr] at hs
+    simp only at hs
+    split at hs
+    · rename_i hk
+      exact hG j (no_parking_when_all_surrendered (reachable_invA (R.reach j)) (by rw [hcr, hk]))
+    · cases hs
+  -- a surrendered worker stays surrendered
+  have surrForever : ∀ x j, (tr j).pc x = .surrendered → ∀ i, j ≤ i → (tr i).pc x = .surrendered := by
+    intro x j h
+    have : ∀ d, (tr (j + d)).pc x = .surrendered := by
+      intro d
+      induction d with
+      | zero => exact h
+      | succ d ih =>
+        show (tr (j + d + 1)).pc x = _
+        cases ha : act (j + d) with
+        | none => rw [R.stutter_at ha]; exact ih
+        | some a =>
+          have hs := R.step_at ha
+          rcases step_late_stable late_qSurr hs x (by rw [ih]; rfl) with h | rfl | rfl | rfl
+          · cases hp : (tr (j + d + 1)).pc x <;> rw [hp] at h <;> first | rfl | cases h
+          · have := (step_wake_exit hs (hI (j + d)).1).1; rw [ih] at this; cases this
+          · have := (step_surrender_pc hs).1; rw [ih] at this; cases this
+          · exact absurd ha (hnoresp _)
+    intro i hi
+    have := this (i - j)
+    rwa [show j + (i - j) = i by omega] at this
+  have fromExited : ∀ x, x < c.n → ∀ j, (tr j).pc x = .exited → ∃ J, ∀ i, J ≤ i → (tr i).pc x = .surrendered := by
+    intro x hx j h
+    obtain ⟨m, _, _, a, ha, hmem⟩ := wf1 R (.surrender x) (fun m => (tr m).pc x = .exited) j h
+      (by
+        intro m _ hPm hnt
+        cases ha : act m with
+        | none => rw [R.stutter_at ha]; exact hPm
+        | some a =>
+          have hs := R.step_at ha
+          rcases step_late_stable late_qExited hs x (by rw [hPm]; rfl) with h | rfl | rfl | rfl
+          · cases hp : (tr (m + 1)).pc x <;> rw [hp] at h <;> first | rfl | cases h
+          · have := (step_wake_exit hs (hI m).1).1; rw [hPm] at this; cases this
+          · exact absurd ⟨_, ha, rfl⟩ hnt
+          · exact absurd ha (hnoresp _))
+      (by
+        intro m _ hPm
+        obtain ⟨_, ⟨k, hcr⟩, _⟩ := hI m
+        refine ⟨.surrender x, rfl, ?_⟩
+        simp only [step, hcr]
+        rw [if_pos ⟨hx, hPm⟩]
+        split <;> rfl)
+    simp only [FairAct.mem] at hmem; subst hmem
+    exact ⟨m + 1, surrForever x (m + 1) (step_surrender_pc (R.step_at ha)).2.1⟩
+  have fromWoken : ∀ x, x < c.n → ∀ j, (tr j).pc x = .woken → ∃ J, ∀ i, J ≤ i → (tr i).pc x = .surrendered := by
+    intro x hx j h
+    obtain ⟨m, _, _, a, ha, hmem⟩ := wf1 R (.wake x) (fun m => (tr m).pc x = .woken) j h
+      (by
+        intro m _ hPm hnt
+        cases ha : act m with
+        | none => rw [R.stutter_at ha]; exact hPm
+        | some a =>
+          have hs := R.step_at ha
+          rcases step_late_stable late_qWoken hs x (by rw [hPm]; rfl) with h | rfl | rfl | rfl
+          · cases hp : (tr (m + 1)).pc x <;> rw [hp] at h <;> first | rfl | cases h
+          · exact absurd ⟨_, ha, rfl⟩ hnt
+          · have := (step_surrender_pc hs).1; rw [hPm] at this; cases this
+          · exact absurd ha (hnoresp _))
+      (by
+        intro m _ hPm
+        refine ⟨.wake x, rfl, ?_⟩
+        have hAm := reachable_invA (R.reach m)
+        have hpos : 0 < (tr m).parked := by
+          rw [hAm.parked_eq]
+          exact countW_pos c.n _ x hx (by rw [hPm]; rfl)
+        simp [step, hx, hPm, hpos])
+    simp only [FairAct.mem] at hmem; subst hmem
+    exact fromExited x hx (m + 1) (step_wake_exit (R.step_at ha) (hI m).1).2
+  obtain ⟨J, hJ⟩ := eventually_forall_lt c.n (fun w j => (tr j).pc w = .surrendered) (fun x hx => by
+    have hl := (hI 0).2.2 x hx
+    cases hp : (tr 0).pc x <;> rw [hp] at hl <;> first | cases hl | skip
+    · exact fromWoken x hx 0 hp
+    · exact fromExited x hx 0 hp
+    · exact ⟨0, surrForever x 0 hp⟩)
+  exact hG J (fun w hw => hJ w hw J (Nat.le_refl _))
+
+theorem afterUnpark_exit {t : State} {g : Goal} (x : Nat) (h : t.current = some g) (hx : g.isExit = true) :
+    (afterUnpark t x).pc x = .exited := by
+  unfold afterUnpark
+  cases g
+  · cases hx
+  · simp [h, setPc]
+  · simp [h, setPc]
+
+theorem onLastParked_starts_exit {c : Cfg} {s : State} {tag : Nat} (hcur : s.current = none) (hgc : s.reqGc = false)
+    (hreq : s.reqShutdown = true ∨ s.reqFork = true) :
+    ∃ s1 g, onLastParked c s tag = some (s1, .wakeAll) ∧ s1.current = some g ∧ g.isExit = true ∧ s1.pc = s.pc ∧
+      s1.creation = s.creation ∧ s1.parked = s.parked := by
+  unfold onLastParked
+  simp only [hcur]
+  unfold respond
+  simp only [hcur, hgc, Option.isSome_none, Bool.false_eq_true, if_false]
+  by_cases h1 : s.reqShutdown = true
+  · simp only [h1, if_true]
+    exact ⟨_, .shutdown, rfl, rfl, rfl, rfl, rfl, rfl⟩
+  · have h2 : s.reqFork = true := by
+      rcases hreq with h | h
+      · exact absurd h h1
+      · exact h
+    simp only [h1, h2, if_true]
+    exact ⟨_, .stopForFork, rfl, rfl, rfl, rfl, rfl, rfl⟩
+
+/-- **C16 (liveness)** after a `Shutdown` / `StopForFork` request every worker exits and surrenders.
+Hypotheses (all explicit): a fair run with finitely many packets and environment actions and no assertion
+failure (as for C14); at the start the request is pending, no goal is current, every worker thread exists,
+and `prepare_surrender_buffer` has been called (`stop_gc_threads_for_forking` does so before `make_request`);
+no Gc request is pending or arrives (`Gc` has priority over exit goals: a GC requested meanwhile is served
+first — `gc_completes_under_fairness` — and this theorem applies to the run after it). -/
+theorem workers_exit_under_fairness {c : Cfg} {tr : Nat → State} {act : Nat → Option Act}
+    (hn : 0 < c.n) (hmut : c.mutAddOpen = false) (hu : c.unconIdx < c.L)
+    (R : FairRun c tr act) (hN : FiniteSpawn tr) (hE : FiniteEnv act) (hA : NoAssert c tr)
+    (hreq : (tr 0).reqShutdown = true ∨ (tr 0).reqFork = true) (hcur : (tr 0).current = none)
+    (hns : ∀ w, w < c.n → (tr 0).pc w ≠ .surrendered) (hcr : ∃ k, (tr 0).creation = .surrendered k)
+    (hnogc : ∀ j, (tr j).reqGc = false) :
+    ∃ j0 j, j0 ≤ j ∧ (∃ g, (tr j0).current = some g ∧ g.isExit = true) ∧ (∀ w, w < c.n → (tr j).pc w = .surrendered) := by
+  have hP0 : Pending c (tr 0) := by
+    refine ⟨Or.inl ?_, (show NoExit (tr 0) from fun g hg => by rw [hcur] at hg; cases hg), hns⟩
+    simp only [anyRequested, Bool.or_eq_true]
+    rcases hreq with h | h
+    · exact Or.inl (Or.inr h)
+    · exact Or.inr h
+  obtain ⟨jl, hjl⟩ := last_park_eventually hn hmut hu R hN hE hA hP0
+  obtain ⟨j0, hl0, hleast⟩ := exists_least (fun j => IsLastPark c (tr j) (act j)) ⟨jl, hjl.1⟩
+  have hpre : ∀ i, i ≤ j0 → Pending c (tr i) ∧ (tr i).current = none ∧
+      ((tr i).reqShutdown = true ∨ (tr i).reqFork = true) ∧ ∃ k, (tr i).creation = .surrendered k := by
+    intro i
+    induction i with
+    | zero => intro _; exact ⟨hP0, hcur, hreq, hcr⟩
+    | succ i ih =>
+      intro hi
+      obtain ⟨hp, hc, hrq, k, hk⟩ := ih (by omega)
+      cases ha : act i with
+      | none => rw [R.stutter_at ha]; exact ⟨hp, hc, hrq, k, hk⟩
+      | some a =>
+        have hs := R.step_at ha
+        have hnl : ¬ IsLastPark c (tr i) (some a) := by rw [← ha]; exact hleast i (by omega)
+        obtain ⟨f1, _, f3, f4, _⟩ := nonlast_step_frame hn (R.reach i) hp.2.1 hs hnl
+        refine ⟨pending_step hn (R.reach i) hp hs hnl, by rw [f1]; exact hc, ?_, ?_⟩
+        · rcases hrq with h | h
+          · exact Or.inl (f3 h)
+          · exact Or.inr (f4 h)
+        · have hA' := reachable_invA (R.reach i)
+          have hE' := (reachable_invE hn (R.reach i)).2
+          rcases step_other_E c _ _ a hs with ⟨w, tag, rfl⟩ | ⟨w, rfl⟩ | ⟨w, rfl⟩ | rfl | ⟨_, hcre, _⟩
+          · obtain ⟨_, _, _, hcase⟩ := step_park_cases hs
+            rcases hcase with ⟨_, e⟩ | ⟨hl, _⟩
+            · exact ⟨k, by rw [e]; exact hk⟩
+            · exact absurd ⟨w, tag, rfl, hl⟩ hnl
+          · simp only [step] at hs
+            split at hs
+            · injection hs with hs; rw [← hs, afterUnpark_creation]; exact ⟨k, hk⟩
+            · cases hs
+          · exact ⟨_, (step_surrender_pc hs).2.2.choose_spec⟩
+          · exfalso
+            simp only [step] at hs
+            rw [hk] at hs
+            simp only at hs
+            split at hs
+            · rename_i hkn
+              have := no_parking_when_all_surrendered hA' (by rw [hk, hkn]) 0 hn
+              exact hp.2.2 0 hn this
+            · cases hs
+          · rcases hcre with e | e
+            · exact ⟨k, by rw [e]; exact hk⟩
+            · exact ⟨0, e⟩
+  obtain ⟨hp0, hc0, hrq0, k0, hk0⟩ := hpre j0 (Nat.le_refl _)
+  obtain ⟨w, tag, hact, hlast⟩ := hl0
+  have hs := R.step_at hact
+  obtain ⟨hw, hpcw, _, _⟩ := step_park_cases hs
+  obtain ⟨s1, g, hlp, hg1, hg2, hpc1, hcr1, _⟩ := onLastParked_starts_exit (c := c) (tag := tag)
+    (s := { tr j0 with parked := (tr j0).parked + 1, trace := [] }) hc0 (hnogc j0) hrq0
+  have hs' := step_park_wakeAll hs hlast hlp
+  have hA0 := reachable_invA (R.reach j0)
+  have hphase : ExitPhase c (tr (j0 + 1)) := by
+    rw [hs']
+    refine ⟨⟨g, by rw [afterUnpark_current]; exact hg1, hg2⟩, ⟨k0, by rw [afterUnpark_creation]; show s1.creation = _; rw [hcr1]; exact hk0⟩, ?_⟩
+    intro x hx
+    by_cases e : x = w
+    · subst e
+      rw [afterUnpark_exit (t := { notifyAll s1 with parked := (notifyAll s1).parked - 1 }) x hg1 hg2]; rfl
+    · rw [afterUnpark_pc_other e]
+      have hpar := countW_all_but c.n (fun y => ((tr j0).pc y).isParked) w hw (by simp [hpcw, PC.isParked])
+        (by have := hA0.parked_eq; unfold parkedCount at this; omega) x hx e
+      show qLate ((notifyAll s1).pc x) = true
+      simp only [notifyAll, hpc1]
+      cases hp : (tr j0).pc x <;> rw [hp] at hpar <;> simp_all [PC.isParked, qLate]
+  obtain ⟨j, hj⟩ := workers_exit_after_goal hn (R.shift (j0 + 1)) hphase
+  exact ⟨j0 + 1, j0 + 1 + j, by omega, hphase.1, hj⟩
+
+/-! ## the hypotheses of `workers_exit_under_fairness` are satisfiable -/
+
+open Mmtk.Generated.Stages in
+/-- one worker; `prepare_surrender_buffer` and `make_request(StopForFork)` have been called -/
+def exitStart : State :=
+  (exec (cfg 1) (init (cfg 1)) [.prepareSurrender, .makeRequest .stopForFork none]).getD (init (cfg 1))
+
+open Mmtk.Generated.Stages in
+/-- the worker finds nothing, parks (last parker: starts the exit goal, leaves its loop), surrenders (goal
+completed); the binding respawns it; it finds nothing and goes to sleep -/
+def exitRun : List Act :=
+  (allConts (cfg 1)).map (Act.observeEmpty 0) ++ [.pollMiss 0, .park 0 0, .surrender 0, .respawn] ++
+  (allConts (cfg 1)).map (Act.observeEmpty 0) ++ [.pollMiss 0, .park 0 0]
+
+open Mmtk.Generated.Stages in
+def exitEnd : State := (exec (cfg 1) exitStart exitRun).getD exitStart
+
+open Mmtk.Generated.Stages in
+theorem exitRun_exec : exec (cfg 1) exitStart exitRun = some exitEnd := exec_getD (by decide +kernel)
+
+open Mmtk.Generated.Stages in
+/-- **a concrete instance of all hypotheses** of `workers_exit_under_fairness` -/
+theorem exit_hypotheses_satisfiable :
+    0 < (cfg 1).n ∧ (cfg 1).mutAddOpen = false ∧ (cfg 1).unconIdx < (cfg 1).L ∧
+    FairRun (cfg 1) (runStates (cfg 1) exitStart exitRun) (fun k => exitRun[k]?) ∧
+    FiniteSpawn (runStates (cfg 1) exitStart exitRun) ∧ FiniteEnv (fun k => exitRun[k]?) ∧
+    NoAssert (cfg 1) (runStates (cfg 1) exitStart exitRun) ∧
+    ((runStates (cfg 1) exitStart exitRun 0).reqShutdown = true ∨ (runStates (cfg 1) exitStart exitRun 0).reqFork = true) ∧
+    (runStates (cfg 1) exitStart exitRun 0).current = none ∧
+    (∀ w, w < (cfg 1).n → (runStates (cfg 1) exitStart exitRun 0).pc w ≠ .surrendered) ∧
+    (∃ k, (runStates (cfg 1) exitStart exitRun 0).creation = .surrendered k) ∧
+    (∀ j, (runStates (cfg 1) exitStart exitRun j).reqGc = false) := by
+  have hreach : Reachable (cfg 1) exitStart :=
+    ⟨[.prepareSurrender, .makeRequest .stopForFork none], exec_getD (by decide +kernel)⟩
+  have hend : ∀ w, w < (cfg 1).n → exitEnd.pc w = .waiting := by
+    intro w hw
+    have : w = 0 := by have : (cfg 1).n = 1 := rfl; omega
+    subst this; decide +kernel
+  refine ⟨by decide, rfl, by decide, fairRun_of_finite hreach exitRun_exec hend, ?_, ?_, ?_, ?_, ?_, ?_, ?_, ?_⟩
+  · exact ⟨0, runStates_forall exitRun_exec (fun s => s.added ≤ 0) (by decide +kernel) (by decide +kernel)⟩
+  · refine ⟨exitRun.length, fun j a hj ha => ?_⟩
+    have : exitRun[j]? = none := List.getElem?_eq_none hj
+    have ha' : exitRun[j]? = some a := ha
+    rw [this] at ha'; cases ha'
+  · intro j w hw
+    have : w = 0 := by have : (cfg 1).n = 1 := rfl; omega
+    subst this
+    exact runStates_forall exitRun_exec
+      (fun s => s.pc 0 = .parking → ∃ tag, (step (cfg 1) s (.park 0 tag)).isSome = true)
+      (fun k hk hp => ⟨0, by
+        have : ∀ k, k < exitRun.length → (runStates (cfg 1) exitStart exitRun k).pc 0 = .parking →
+            (step (cfg 1) (runStates (cfg 1) exitStart exitRun k) (.park 0 0)).isSome = true := by decide +kernel
+        exact this k hk hp⟩)
+      (fun hp => by have : exitEnd.pc 0 = .waiting := by decide +kernel
+                    rw [this] at hp; cases hp) j
+  · rw [runStates_zero]; exact Or.inr (by decide +kernel)
+  · rw [runStates_zero]; decide +kernel
+  · intro w hw
+    have : w = 0 := by have : (cfg 1).n = 1 := rfl; omega
+    subst this; rw [runStates_zero]; decide +kernel
+  · rw [runStates_zero]; exact ⟨0, by decide +kernel⟩
+  · exact runStates_forall exitRun_exec (fun s => s.reqGc = false) (by decide +kernel) (by decide +kernel)
+
+open Mmtk.Generated.Stages in
+/-- the liveness theorem applied to the concrete run -/
+example : ∃ j, ∀ w, w < (cfg 1).n → (runStates (cfg 1) exitStart exitRun j).pc w = .surrendered := by
+  obtain ⟨h1, h2, h3, h4, h5, h6, h7, h8, h9, h10, h11, h12⟩ := exit_hypotheses_satisfiable
+  obtain ⟨_, j, _, _, hj⟩ := workers_exit_under_fairness h1 h2 h3 h4 h5 h6 h7 h8 h9 h10 h11 h12
+  exact ⟨j, hj⟩
 
 open Mmtk.Generated.Stages in
 /-- a complete fork round trip with 2 workers: request, both workers exit and surrender, respawn -/
